@@ -474,6 +474,12 @@ var InvalidClasses = []struct {
 	{"ptr/list-elem-string", []string{"A []*string `frugal:\"1,default,list<string>\"`"}},
 	{"ptr/map-value-scalar", []string{"A map[int32]*int64 `frugal:\"1,default,map<i32:i64>\"`"}},
 	{"ptr/map-value-string", []string{"A map[string]*string `frugal:\"1,default,map<string:string>\"`"}},
+	{"ptr/list-elem-binary", []string{"A []*[]byte `frugal:\"1,default,list<binary>\"`"}},
+	{"ptr/map-value-binary", []string{"A map[string]*[]byte `frugal:\"1,default,map<string:binary>\"`"}},
+	{"ptr/nested-set-elem-binary", []string{"A map[int32][]*[]byte `frugal:\"1,default,map<i32:set<binary>>\"`"}},
+	{"ptr/list-elem-bool", []string{"A []*bool `frugal:\"1,default,list<bool>\"`"}},
+	{"ptr/list-elem-double", []string{"A []*float64 `frugal:\"1,default,set<double>\"`"}},
+	{"ptr/map-value-enum", []string{"A map[int64]*EnumA `frugal:\"1,default,map<i64:EnumA>\"`"}},
 	{"ptr/default-field-scalar", []string{"A *int32 `frugal:\"1,default,i32\"`"}},
 	{"ptr/required-field-string", []string{"A *string `frugal:\"1,required,string\"`"}},
 	{"ptrptr/struct", []string{"A **%B `frugal:\"1,optional,%B\"`"}},
